@@ -394,7 +394,10 @@ impl Samples {
 /// Runs `f`, converting a panic into `Err(message)`. The default panic hook is silenced
 /// for the duration by `silence_panics()` (call once at start-up).
 pub fn catch<R>(f: impl FnOnce() -> R) -> Result<R, String> {
-    match std::panic::catch_unwind(std::panic::AssertUnwindSafe(f)) {
+    CATCH_DEPTH.with(|d| d.set(d.get() + 1));
+    let result = std::panic::catch_unwind(std::panic::AssertUnwindSafe(f));
+    CATCH_DEPTH.with(|d| d.set(d.get() - 1));
+    match result {
         Ok(r) => Ok(r),
         Err(e) => {
             let msg = if let Some(s) = e.downcast_ref::<&str>() {
@@ -414,6 +417,7 @@ pub fn catch<R>(f: impl FnOnce() -> R) -> Result<R, String> {
 }
 
 thread_local! {
+    static CATCH_DEPTH: std::cell::Cell<u32> = const { std::cell::Cell::new(0) };
     static LAST_PANIC_LOCATION: std::cell::RefCell<Option<String>> = const { std::cell::RefCell::new(None) };
 }
 
@@ -423,6 +427,12 @@ pub fn silence_panics() {
         let loc = info
             .location()
             .map(|l| format!("{}:{}", l.file(), l.line()));
+        let quiet = CATCH_DEPTH.with(|d| d.get() > 0)
+            || std::thread::current().name().is_some_and(|n| n.starts_with("proc"));
+        if !quiet {
+            // a panic of the harness itself: keep it visible
+            eprintln!("harness panic: {info}");
+        }
         LAST_PANIC_LOCATION.with(|l| *l.borrow_mut() = loc);
     }));
 }
